@@ -623,7 +623,9 @@ func timeVals(lvl int) []V {
 	}
 	if lvl >= 2 {
 		out = append(out, V{Sec: 0, Ns: 1}, V{Sec: zeroTimeSec - 3600, Off: 3600}, V{Sec: 253402300799, Ns: 999999999},
-			V{Sec: 63, Ns: 64}, V{Sec: -64, Ns: 63}, V{Sec: 1600000000, Off: -7 * 3600})
+			V{Sec: 63, Ns: 64}, V{Sec: -64, Ns: 63}, V{Sec: 1600000000, Off: -7 * 3600},
+			// beyond RFC 3339's four-digit years on both sides, and an extreme zone
+			V{Sec: 253402300800, Ns: 1}, V{Sec: zeroTimeSec - 400*86400, Ns: 5}, V{Sec: 1600000000, Ns: 1000, Off: 14 * 3600})
 	}
 	return out
 }
